@@ -15,5 +15,6 @@ CONSTANTS
   MAX = 99
   MaxDigits <- SmallMaxDigits
   Extra <- NoExtra
+  ExtraSeq <- NoExtraSeq
 INVARIANTS GrammarTotal FastPathExact AtofAgrees AtoiAgrees RangeRule DigitArith ThresholdRule IntIsFloat
 CHECK_DEADLOCK FALSE
